@@ -112,7 +112,7 @@ func runChild(c *core.Ctx, job c17drv.Job) *childRun {
 			}
 			cr.err = fmt.Errorf("child: %v: %s", err, kit.FirstLines(errBuf.String(), 8))
 		}
-	case <-time.After(4 * time.Minute):
+	case <-time.After(15 * time.Minute):
 		_ = cmd.Process.Kill()
 		cr.err = fmt.Errorf("child timed out (phases %v)", job.Phases)
 	}
@@ -181,7 +181,10 @@ var reRejected = regexp.MustCompile(`C17-REJECTED-EPISODE", (\d+)`)
 // validateHistories checks the episodes with TLC (four chunks in parallel); it
 // returns the number of accepted episodes and the rejected ones.
 func validateHistories(c *core.Ctx, eps []c17drv.Episode) (accepted int, rejected []c17drv.Episode) {
-	const chunks = 4
+	chunks := 4
+	if len(eps) > 400 {
+		chunks = 8
+	}
 	var mu sync.Mutex
 	core.ParallelFor(chunks, chunks, func(k int) {
 		lo, hi := k*len(eps)/chunks, (k+1)*len(eps)/chunks
@@ -211,7 +214,7 @@ func validateChunk(c *core.Ctx, eps []c17drv.Episode, chunk int) (accepted int, 
 			c.Broken("cannot write history file: %v", err)
 			return
 		}
-		ok, res := kit.ValidateTrace(c, specName+"_Trace.tla", specName+"_Trace.cfg", file, tlc.Options{DFS: true, Timeout: 6 * time.Minute})
+		ok, res := kit.ValidateTrace(c, specName+"_Trace.tla", specName+"_Trace.cfg", file, tlc.Options{DFS: true, Timeout: 25 * time.Minute})
 		if res == nil || c.IsBroken() {
 			return
 		}
@@ -466,7 +469,7 @@ func run(c *core.Ctx) {
 			if !want("mc") {
 				return
 			}
-			if kit.ModelCheck(c, specName+".tla", cfg, tlc.Options{Workers: 12, Timeout: 8 * time.Minute}) == nil {
+			if kit.ModelCheck(c, specName+".tla", cfg, tlc.Options{Workers: 12, Timeout: 25 * time.Minute}) == nil {
 				return
 			}
 		}
@@ -477,7 +480,7 @@ func run(c *core.Ctx) {
 	pairMs, stressMs, episodes, clients, iters, conns := 70, 1500, 300, 12, 6, 6
 	procs := []int{2, 4, 16}
 	if c.Thorough() {
-		pairMs, stressMs, episodes, clients, iters, conns = 400, 20000, 1500, 24, 12, 12
+		pairMs, stressMs, episodes, clients, iters, conns = 400, 20000, 1000, 24, 12, 12
 		procs = []int{1, 2, 3, 4, 8, 16}
 	}
 
